@@ -25,6 +25,11 @@ def exR (pm : List Param) (s : Frame) (lvs : List Int) : Ex → Bool
   | .sub a b => exR pm s lvs a && exR pm s lvs b && inR (evalEx pm s lvs (.sub a b))
   | _ => true
 
+/-- a list of argument expressions (a formatted reply) -/
+def exsR (pm : List Param) (s : Frame) : List Ex → Bool
+  | [] => true
+  | x :: rest => exR pm s [] x && exsR pm s rest
+
 def condR (pm : List Param) (s : Frame) (lvs : List Int) : Cond → Bool
   | .cmp _ a b => exR pm s lvs a && exR pm s lvs b
   | .and a b => condR pm s lvs a && condR pm s lvs b
@@ -131,6 +136,9 @@ def rangeS (pm : List Param) : Stmt → Frame → Bool
   | .attrClear, _ => true
   | .setUl _, _ => true
   | .logErr, _ => true
+  -- the int arguments of a formatted reply (`vt.cursor.row+1`, `vt.cursor.col+1` of the cursor-position report) are Go arithmetic too
+  | .reply (.sprintf _ args), s => exsR pm s args
+  | .reply (.fprintf _ args), s => exsR pm s args
   | .reply _, _ => true
   | .setMode _ _, _ => true
   | .post, _ => true
